@@ -242,6 +242,21 @@ check('C16',
       'machine-checked proof in Coq over tables regenerated from source (T2) + correspondence run (vm_compute) + contract monitor',
       'DESIGN.md 5 C16')
 
+check('C20',
+      'Coq theorems (Props/C20.v): the _FFT_FUNCS list GENERATED from fft.py by T2 is exactly the fourteen names, each resolving to the '
+      'wrapper of the same-named scipy.fft transform with a dask branch, every other name refused (AttributeError); over Q (axiom-free), '
+      'through the C02 band model incl. the re-centring slice z[..., :]: the STFT of a band with n channels and nperseg P has n*P '
+      'channels of width sr/P and sub-channel j of channel i is labelled label(i) + (j - floor(P/2)) sr/P - the true frequency of its DFT '
+      'bin - for all three alignments, every n and either parity of P; ISTFT of the STFT has the original channel count, width and every '
+      'label; lengths are whole segments and the round trip returns len - len mod P samples; fftshift/ifftshift index maps are inverse; '
+      'over the complex numbers (every nperseg >= 1) ISTFT(STFT(x)) = x per segment and channel, from the DFT inversion theorem. '
+      'PARTIAL: equality of each pb.fft transform with its reference on both backends (any axis/axes, n, norm; lazily on Dask) is decided '
+      'by the correspondence run against scipy.fft (exact), numpy conventions and a direct longdouble DFT matrix.',
+      'Trusted: Coq kernel, stdlib real-number axioms (segment inversion), T2; scipy.fft = the mathematical DFT (validated against the DFT '
+      'matrix for fft/ifft); dask fft_wrap accepts a subset of keyword forms (rejections are counted, not failures).',
+      'machine-checked proof in Coq (generated name table; Q band algebra; C segment inversion) + correspondence run (vm_compute) + reference-transform monitor',
+      'DESIGN.md 5 C20')
+
 ALL = [f'C{i:02d}' for i in range(1, 21)]
 
 def main():
